@@ -23,7 +23,6 @@ from pathlib import Path
 from .. import common as c
 
 PROP = "C08"
-SIG_MPF = "molecules-per-file"
 
 
 def jvm(gb):
@@ -400,14 +399,15 @@ def run_case(root, alpha, ids, ci, fixed_written, probe):
     return res, files
 
 
-def judge(exp, impl, runs):
-    """compare the three runs with the expected value.  returns None | (sig, what, detail)"""
+def judge(exp, runs):
+    """compare the three runs with the expected value.  returns None | (sig, what, detail); sig is always None: no finding
+    of C08 is open (F3 and F16 molecules-per-file are repaired), so every difference is a VIOLATION"""
     for v, rel, obs, pr in runs:
         d = first_diff(obs, exp)
         if d is not None:
             others = [o for vv, _, o, _ in runs if vv != v]
             agree = all(o == obs for o in others)
-            sig = SIG_MPF if (impl is not None and agree and obs == impl and impl != exp) else None
+            sig = None
             what = "%s differ%s (variant %s, %s path): read %s, flattened equivalent gives %s" % (
                 FIELD_NAMES[d], "" if agree else " and the textual variants disagree with each other", VARIANTS[v],
                 "relative" if rel else "absolute", json.dumps(obs[d])[:200], json.dumps(exp[d])[:200])
@@ -427,14 +427,13 @@ def _replay_chunk(arg):
     nreads = 0
     for ci, case in cases:
         exp = norm_expected(case["exp"])
-        impl = norm_expected(case["impl"]) if "same" not in case["impl"] else None
         try:
             runs, files = run_case(root, alpha, case["c"], ci, fixed, probe)
         except RecursionError as exc:
             bad.append((ci, None, "reader recursed without bound: %s" % exc, {}))
             continue
         nreads += len(runs)
-        j = judge(exp, impl, runs)
+        j = judge(exp, runs)
         if j is not None:
             bad.append((ci,) + j)
     shutil.rmtree(root, ignore_errors=True)
@@ -470,6 +469,13 @@ def replay_export(ck, res, label, probe=False, seen=None):
     for cs in cases:
         ck.nontrivial.add("%s:%s" % (label, cs["c"]))
     return cases, alpha, nbad
+
+
+def mols_files(alpha, ids):
+    """number of files of the case that hold [ molecules ] entries and are named by the main file (input statistic)"""
+    n = 1 if any(l["k"] == "mols" for i in ids for l in alpha["chunks"][i - 1]) else 0
+    named = {tuple(l["p"]) for i in ids for l in alpha["chunks"][i - 1] if l["k"] == "incl"}
+    return n + sum(1 for f in alpha["files"] if tuple(f["path"]) in named and any(l["k"] == "mols" for l in f["lines"]))
 
 
 def main_summary(alpha, ids):
@@ -978,7 +984,6 @@ def run(tier):
         ("TopReadMC", "Top_sec.cfg", {"env": jvm(3), "workers": 2, "coverage": True}),
         ("TopReadMC", "Top_mols.cfg", {"env": jvm(3), "workers": 2}),
         ("TopReadMC", "Top_split.cfg", {"env": jvm(3), "workers": 2, "coverage": True}),
-        ("TopReadMC", "Top_split_intended.cfg", {"env": jvm(3), "workers": 2}),
         ("TopReadMC", "Top_cond_intended.cfg", {"env": jvm(3), "workers": 2, "coverage": True}),
         ("TopReadMC", "Top_dev_f3.cfg", {"env": jvm(2), "workers": 1, "check": False}),
         ("TopReadMC", "Top_dev_molsperfile.cfg", {"env": jvm(2), "workers": 1, "check": False}),
@@ -987,16 +992,15 @@ def run(tier):
     ]
     results = tlc_jobs(jobs)
     conds = results[:len(cond_jobs)]
-    sec, mols, split, split_int, cond_int, d_f3, d_mpf, d_dir, d_else = results[len(cond_jobs):]
+    sec, mols, split, cond_int, d_f3, d_mpf, d_dir, d_else = results[len(cond_jobs):]
     for r in conds:
         ck.model_must_hold(r, "SameX (I-layer result = PRead) / NoStruct / DoneEmpty / CondOnlyGuards / DomainOK")
     ck.model_must_hold(sec, "SameX/ErrIff/Monotone (sec)")
     ck.model_must_hold(mols, "SameX (mols)")
-    ck.model_must_hold(split, "SameOneFile (split; the tree's per-file instantiation is unobservable when [molecules] is in one file)")
-    ck.model_must_hold(split_int, "Same (split, intended design: entries instantiated once by the root director)")
-    ck.model_must_hold(cond_int, "Same (cond, intended design)")
+    ck.model_must_hold(split, "SameX (split: [molecules] entries of all files instantiated once, in textual order, by the root director)")
+    ck.model_must_hold(cond_int, "Same/ErrIff/CondOnlyGuards/Monotone (cond, <= 2 chunks, with action coverage)")
     ck.model_must_refute(d_f3, "Same", "deviation F3 (repaired): conditionals untracked once the itp buffer is non-empty")
-    ck.model_must_refute(d_mpf, "Same", "deviation molecules-per-file: [molecules] instantiated per file, numbered from 0")
+    ck.model_must_refute(d_mpf, "Same", "deviation F16 molecules-per-file (repaired): [molecules] instantiated per file, numbered from 0")
     ck.model_must_refute(d_dir, "Same", "wrong design: nested include keeps the includer's directory")
     ck.model_must_refute(d_else, "Same", "wrong design: #else does not invert")
     ck.extra["F3_counterexample"] = c.counterexample(d_f3)[:1500]
@@ -1018,10 +1022,10 @@ def run(tier):
     mid = cases[-7]
     ck.sample({"S->I case (mols)": main_summary(alpha, mid["c"]), "expected molecules": mid["exp"]["molecules"], "idx": mid["exp"]["idx"]})
     cases, alpha, _ = replay_export(ck, split, "split", probe=True)
-    dev = [x for x in cases if "same" not in x["impl"]]
-    if not dev:
-        raise c.MachineryError("split instance holds no case in which the per-file deviation is observable (vacuous)")
-    ck.extra["split_cases_where_tree_model_differs_from_flattened"] = len(dev)
+    spread = sum(1 for x in cases if mols_files(alpha, x["c"]) >= 2)
+    if not spread:
+        raise c.MachineryError("split instance holds no case with [molecules] entries in several files (vacuous)")
+    ck.extra["split_cases_with_molecules_in_several_files"] = spread
 
     ck.stage("I->S: random include trees and real .top files")
     n = 240 if quick else 3000
